@@ -21,7 +21,9 @@ EXTENDS Integers, Sequences, FiniteSets, TLC, Json
 Methods == {"GET", "HEAD", "PUT", "POST", "DELETE", "PATCH", "OPTIONS", "TRACE"}
 Endpoints == {"stats", "grouplist", "group", "users", "user", "wildcard", "emptyuser", "password", "wildpassword",
               "keys", "tokens", "token", "unknownkind", "unknownsub", "v1", "badversion", "othergroup", "otherpassword"}
-Creds == {"none", "wrongpw", "user", "op", "otheradmin", "gadmin", "root", "tokout", "tokin", "tokroot", "selfpw"}
+\* "emptypw": any username with the password of the group's empty-named user (a legal key of the users map); "otherpw": bob's
+\* password presented under alice's name on alice's endpoints
+Creds == {"none", "wrongpw", "user", "op", "otheradmin", "gadmin", "root", "tokout", "tokin", "tokroot", "selfpw", "emptypw", "otherpw"}
 
 \* which group an endpoint belongs to ("" = server-wide)
 GroupOf(e) == CASE e \in {"stats", "grouplist", "v1", "badversion"} -> ""
@@ -52,7 +54,7 @@ Next == UNCHANGED r
 Emit == PrintT(<<"CASE", ToJson([m |-> r.m, e |-> r.e, c |-> r.c, expect |-> Decide(r)])>>)
 
 \* design-level facts over the whole table
-NoOrdinaryUserEverServed == (r.c \in {"none", "wrongpw", "user", "op"} /\ r.m # "OPTIONS") => Decide(r) # "serve"
+NoOrdinaryUserEverServed == (r.c \in {"none", "wrongpw", "user", "op", "emptypw", "otherpw"} /\ r.m # "OPTIONS") => Decide(r) # "serve"
 ScopeRespected == (r.c \in {"gadmin", "tokin"} /\ GroupOf(r.e) # "g" /\ r.m # "OPTIONS" /\ Exists(r.e)) => Decide(r) = "refuse"
 
 ---------------------------------------------------------------------------
